@@ -78,6 +78,21 @@ func replayOne(rp bx.Replay) string {
 		if rp.Entry == "schedule" {
 			return replayC18Schedule(rp)
 		}
+		if rp.Entry == "cold-start-audit" {
+			// the replayer is a fresh process: nothing has called into package rtcp yet
+			if !InstrBuild {
+				return "(the cold-start audit needs the instrumented build)"
+			}
+			c := bx.New("C18", "quick", 0, 1, 0, time.Time{})
+			SetCtx(c)
+			c18ColdAudit(c)
+			for _, f := range c.Result().Findings {
+				if f.Key == rp.Key {
+					return rp.Observed
+				}
+			}
+			return "finding " + rp.Key + " does not fire when the cold-start audit is re-run"
+		}
 	}
 	return "(replay of this entry kind is not automated; the file holds the value / operation list to re-run by hand)"
 }
